@@ -30,7 +30,7 @@ Definition touches_reg (w : world) (o : wop) (r : nat) : Prop :=
 Definition touches_result (w : world) (o : wop) (k : nat) : Prop :=
   match o with OMutList l _ _ => l = get 0 k (results w) | _ => False end.
 Definition touches_file (w : world) (o : wop) (f : nat) : Prop :=
-  match o with OAppend f' | ORemoveLast f' => f' = f | _ => False end.
+  match o with OAppend f' | ORemoveLast f' => f' = f | OMove fa fb => fa = f \/ fb = f | _ => False end.
 
 (* ===== generic facts about upd / get ===== *)
 
@@ -184,7 +184,7 @@ Qed.
 Theorem sep_step : forall w o, Sep w -> Sep (fst (stepR w o)).
 Proof.
   intros w o HS. pose proof HS as HS0. destruct HS as [H1 [H2 [H3 [H4 [H5 H6]]]]].
-  destruct o as [ln | r text | r | ln text | l i v | ln i v | | n | f | f]; unfold stepR, step.
+  destruct o as [ln | r text | r | ln text | l i v | ln i v | | n | f | f | fa fb]; unfold stepR, step.
   - (* ONewReg *)
     unfold Sep. cbn [fst lines lists regs results conts files next_elem].
     rewrite map_app. cbn [map snd]. rewrite <- app_assoc. cbn [app]. rewrite snoc_length.
@@ -246,6 +246,12 @@ Proof.
     cbv zeta. destruct (Nat.ltb 1 (length (get [] c (conts w)))); [| exact HS0].
     unfold Sep. cbn [fst lines lists regs results conts files next_elem].
     rewrite upd_length. exact HS0.
+  - (* OMove *)
+    destruct (nth_error (files w) fa) as [ca|] eqn:Ea; [| exact HS0].
+    destruct (nth_error (files w) fb) as [cb|] eqn:Eb; [| exact HS0].
+    destruct (get [] ca (conts w)) as [|e0 [|e [|e2 rest]]] eqn:Eg; try exact HS0.
+    cbv zeta. unfold Sep. cbn [fst lines lists regs results conts files next_elem].
+    rewrite !upd_length. exact HS0.
 Qed.
 
 (* hence along every operation history *)
@@ -292,7 +298,7 @@ Theorem frame_register : forall w o r, Sep w -> r < length (regs w) -> ~ touches
   obs_reg (fst (stepR w o)) r = obs_reg w r.
 Proof.
   intros w o r HS Hr Ht. pose proof (reg_list_in_range w r HS Hr) as Hrange.
-  destruct o as [ln | r' text | r' | ln text | l i v | ln i v | | n | f | f]; unfold stepR, step.
+  destruct o as [ln | r' text | r' | ln text | l i v | ln i v | | n | f | f | fa fb]; unfold stepR, step.
   - (* ONewReg *)
     unfold obs_reg. cbn [fst lines lists regs results conts files next_elem].
     rewrite (get_app_lt _ (0, 0)) by exact Hr. apply get_app_lt. exact Hrange.
@@ -321,13 +327,17 @@ Proof.
   - destruct (nth_error (files w) f) as [c|]; reflexivity.
   - destruct (nth_error (files w) f) as [c|]; [| reflexivity].
     cbv zeta. destruct (Nat.ltb 1 (length (get [] c (conts w)))); reflexivity.
+  - (* OMove: lists, registers and results are untouched *)
+    destruct (nth_error (files w) fa) as [ca|]; [| reflexivity].
+    destruct (nth_error (files w) fb) as [cb|]; [| reflexivity].
+    destruct (get [] ca (conts w)) as [|e0 [|e [|e2 rest]]]; reflexivity.
 Qed.
 
 Theorem frame_result : forall w o k, Sep w -> k < length (results w) -> ~ touches_result w o k ->
   obs_result (fst (stepR w o)) k = obs_result w k.
 Proof.
   intros w o k HS Hk Ht. pose proof (result_list_in_range w k HS Hk) as Hrange.
-  destruct o as [ln | r' text | r' | ln text | l i v | ln i v | | n | f | f]; unfold stepR, step.
+  destruct o as [ln | r' text | r' | ln text | l i v | ln i v | | n | f | f | fa fb]; unfold stepR, step.
   - (* ONewReg *)
     unfold obs_result. cbn [fst lines lists regs results conts files next_elem].
     apply get_app_lt. exact Hrange.
@@ -354,6 +364,10 @@ Proof.
   - destruct (nth_error (files w) f) as [c|]; reflexivity.
   - destruct (nth_error (files w) f) as [c|]; [| reflexivity].
     cbv zeta. destruct (Nat.ltb 1 (length (get [] c (conts w)))); reflexivity.
+  - (* OMove: lists, registers and results are untouched *)
+    destruct (nth_error (files w) fa) as [ca|]; [| reflexivity].
+    destruct (nth_error (files w) fb) as [cb|]; [| reflexivity].
+    destruct (get [] ca (conts w)) as [|e0 [|e [|e2 rest]]]; reflexivity.
 Qed.
 
 Lemma other_file_other_cont : forall w f f' c, Sep w -> f < length (files w) ->
@@ -370,7 +384,7 @@ Theorem frame_file : forall w o f, Sep w -> f < length (files w) -> ~ touches_fi
   obs_file (fst (stepR w o)) f = obs_file w f.
 Proof.
   intros w o f HS Hf Ht. pose proof (file_cont_in_range w f HS Hf) as Hrange.
-  destruct o as [ln | r' text | r' | ln text | l i v | ln i v | | n | f' | f']; unfold stepR, step.
+  destruct o as [ln | r' text | r' | ln text | l i v | ln i v | | n | f' | f' | fa fb]; unfold stepR, step.
   - reflexivity.
   - destruct (nth_error (regs w) r') as [[ln k']|] eqn:En; [| reflexivity].
     destruct (lo_read (get empty_line ln (lines w)) text) as [lo' vals] eqn:El.
@@ -400,6 +414,17 @@ Proof.
     unfold obs_file. cbn [fst lines lists regs results conts files next_elem].
     simpl in Ht. apply get_upd_ne.
     apply (other_file_other_cont w f f' c HS Hf En). exact Ht.
+  - (* OMove *)
+    destruct (nth_error (files w) fa) as [ca|] eqn:Ea; [| reflexivity].
+    destruct (nth_error (files w) fb) as [cb|] eqn:Eb; [| reflexivity].
+    destruct (get [] ca (conts w)) as [|e0 [|e [|e2 rest]]] eqn:Eg; try reflexivity.
+    cbv zeta. unfold obs_file. cbn [fst lines lists regs results conts files next_elem].
+    simpl in Ht.
+    assert (Hna : fa <> f) by (intro Heq; apply Ht; left; exact Heq).
+    assert (Hnb : fb <> f) by (intro Heq; apply Ht; right; exact Heq).
+    rewrite get_upd_ne by (apply (other_file_other_cont w f fb cb HS Hf Eb); exact Hnb).
+    apply get_upd_ne.
+    apply (other_file_other_cont w f fa ca HS Hf Ea). exact Hna.
 Qed.
 
 (* ===== reads and writes ===== *)
